@@ -342,5 +342,19 @@ def selfcheck():
     return 0 if ok else 1
 
 
+def _main():
+    try:
+        return main()
+    except SystemExit:
+        raise
+    except BrokenPipeError:
+        return 2
+    except BaseException as e:  # a crash of the harness is never a verdict about valida
+        import traceback
+        traceback.print_exc()
+        print(f"INCONCLUSIVE reason=harness crashed: {e!r}")
+        return 2
+
+
 if __name__ == "__main__":
-    sys.exit(main())
+    sys.exit(_main())
